@@ -186,17 +186,18 @@ func (u *URL) String() string {
 
 	// Pagination
 	if u.IsCol {
-		if num, ok := u.Params.Page["number"]; ok {
-			urlParams = append(
-				urlParams,
-				"page%5Bnumber%5D="+escapeQueryValue(fmt.Sprint(num)),
-			)
+		pageKeys := make([]string, 0, len(u.Params.Page))
+		for key := range u.Params.Page {
+			pageKeys = append(pageKeys, key)
 		}
 
-		if size, ok := u.Params.Page["size"]; ok {
+		sort.Strings(pageKeys)
+
+		for _, key := range pageKeys {
 			urlParams = append(
 				urlParams,
-				"page%5Bsize%5D="+escapeQueryValue(fmt.Sprint(size)),
+				"page%5B"+escapeQueryValue(key)+"%5D="+
+					escapeQueryValue(fmt.Sprint(u.Params.Page[key])),
 			)
 		}
 	}
